@@ -203,3 +203,74 @@ pub fn guarded<R>(f: impl FnOnce() -> R) -> Result<R, PanicInfo> {
         }
     }
 }
+
+/// The harness's own, allocation-free view of a payload: the lengths of the frames it encodes,
+/// or None if it is not a valid encoding (or declares more than 1 MiB). Deliberately independent
+/// of the decoder under test, which must never be handed hostile bytes outside a monitored region.
+pub fn ref_frame_lens(data: &[u8]) -> Option<Vec<usize>> {
+    // pass 1: run-length layer -> list of (is_literal, offset, len), total length
+    let mut runs: Vec<(bool, usize, usize)> = vec![];
+    let mut off = 0usize;
+    let mut total = 0usize;
+    while off < data.len() {
+        let mut header = 0u64;
+        let mut shift = 0u32;
+        loop {
+            let b = *data.get(off)?;
+            off += 1;
+            if shift > 56 {
+                return None;
+            }
+            header |= u64::from(b & 127) << shift;
+            shift += 7;
+            if b & 128 == 0 {
+                break;
+            }
+        }
+        let repeat = header & 1 == 1;
+        let len = usize::try_from(if repeat { header >> 2 } else { header >> 1 }).ok()?;
+        total = total.checked_add(len)?;
+        if total > (1 << 20) {
+            return None;
+        }
+        if repeat {
+            runs.push((false, if header & 2 > 0 { 0xFF } else { 0 }, len));
+        } else {
+            if off.checked_add(len)? > data.len() {
+                return None;
+            }
+            runs.push((true, off, len));
+            off += len;
+        }
+    }
+    // pass 2: walk the decoded byte stream without materialising it
+    let byte_at = |pos: usize| -> u8 {
+        let mut p = pos;
+        for (lit, o, l) in &runs {
+            if p < *l {
+                return if *lit { data[*o + p] } else { *o as u8 };
+            }
+            p -= *l;
+        }
+        0
+    };
+    let mut lens = vec![];
+    let mut pos = 0usize;
+    while pos < total {
+        if pos + 2 > total {
+            return None;
+        }
+        let l = u16::from_le_bytes([byte_at(pos), byte_at(pos + 1)]) as usize;
+        pos += 2;
+        if pos + l > total {
+            return None;
+        }
+        pos += l;
+        lens.push(l);
+        if lens.len() > 4096 {
+            return None;
+        }
+    }
+    Some(lens)
+}
+
